@@ -37,6 +37,8 @@ type Gen struct {
 	Subs   []*subState
 	NextN  int
 	Known  []Ref // deliveries handed out by pulls
+	// publish times the server reported in pull responses (seek boundaries)
+	PubTimes []int64
 	Snaps  []string
 	SubSeq int
 }
@@ -174,6 +176,9 @@ func (g *Gen) Observe(res *Result, nOf func(Delivered) (int, bool)) {
 			if n, ok := nOf(d); ok {
 				g.Known = append(g.Known, Ref{N: n, Sub: res.Op.Sub})
 			}
+			if d.PubNs > 0 {
+				g.PubTimes = append(g.PubTimes, d.PubNs)
+			}
 		}
 	}
 }
@@ -261,6 +266,9 @@ func (g *Gen) Next(now int64) Op {
 					d = int64(1+g.R.Intn(30)) * 3600 * Sec
 				}
 			}
+			if g.R.Intn(3) == 0 {
+				d += int64(g.R.Intn(1000)) // off the microsecond grid
+			}
 			return Op{K: "advance", D: d}, true
 		}},
 		{p.Seek, func() (Op, bool) {
@@ -273,6 +281,10 @@ func (g *Gen) Next(now int64) Op {
 				back = -int64(g.R.Intn(50)) * Sec // future
 			}
 			t := now - back
+			if len(g.PubTimes) > 0 && g.R.Intn(3) == 0 {
+				// the boundary: exactly the publish time the server reported for a message, or 1 ns around it
+				t = g.PubTimes[len(g.PubTimes)-1-g.R.Intn(min(len(g.PubTimes), 8))] + int64(g.R.Intn(3)-1)
+			}
 			if t < 0 {
 				t = 0
 			}
